@@ -260,7 +260,7 @@ func init() {
 		Explain: "Structural necessary conditions of sigbits (DESIGN.md 5/C16): bit/byte units (E4); get64Bits' big-endian gather constants and zero padding; chunk agreement in sFirstDiffBit (stride 8 bytes = 64-bit intrinsic, same offset for both keys, loop guards, position 8*i+lz under lz<64, exact clip against min(8*len)); FirstDiffBits' adjacent-pair wiring and length; countPrefixes' running minimum, histogram guard and prefix sums; CountPrefixes' sub-range slice.",
 		NotDec:  []string{"that the histogram/prefix-sum construction equals the number of distinct prefixes for strictly ascending keys (combinatorial argument)"},
 		Trusted: []string{"go/ssa construction", "math/bits.LeadingZeros64"},
-		Quick:   []Config{cfgDefault}, Thorough: []Config{cfgDefault, cfg386},
+		Quick:   []Config{cfgDefault, cfg386}, Thorough: []Config{cfgDefault, cfg386},
 		Run: runC16,
 	})
 }
